@@ -163,7 +163,7 @@ def runQueue (prop : String) (f : List String) (obsS : String) : Verdict :=
   match f with
   | [_, capS, hS, opsS] =>
     let cap := if capS == "u" then none else capS.toNat?
-    let hh := hS != "0"
+    let hh := hS == "1" || hS == "2"
     match (splitList opsS ",").mapM parseOp, (obsS.splitOn ";").mapM parseObs1 with
     | some ops, some impl =>
       let impl := if opsS == "-" then [] else impl
